@@ -1,20 +1,28 @@
 #!/venv/bin/python
-"""Applies a seeded change to /repo, runs the quick checks of the given properties (default: all),
-reports which raise a VIOLATION, and restores /repo.  Usage: tools/try_patch.py patch.diff [C01 C05 ...]"""
-import json, os, subprocess, sys, time
+"""Applies a seeded change, runs the quick checks of the given properties (default: all), reports which raise a VIOLATION,
+and restores the tree.  Usage: tools/try_patch.py patch.diff [C01 C05 ...]
+
+By default the change is applied to /repo itself (and undone afterwards; refuses if /repo has uncommitted changes).  With
+TRY_SRC=<scratch worktree of /repo> it is applied there instead and the checks read chi from that worktree (CHI_SRC), so
+that /repo is never touched and several evaluations can run side by side.  Evidence of these runs goes to a scratch
+directory, never to /verif/evidence."""
+import json, os, shutil, subprocess, sys, tempfile
 HERE = os.path.dirname(os.path.dirname(os.path.abspath(__file__)))
 patch = os.path.abspath(sys.argv[1])
 ids = sys.argv[2:] or [c['property_id'] for c in json.load(open(os.path.join(HERE, 'MANIFEST.json')))['checks']]
-st = subprocess.run(['git', '-C', '/repo', 'status', '--porcelain', '--untracked-files=no'], capture_output=True, text=True).stdout
+src = os.environ.get('TRY_SRC') or '/repo'
+st = subprocess.run(['git', '-C', src, 'status', '--porcelain', '--untracked-files=no'], capture_output=True, text=True).stdout
 if st.strip():
-    sys.exit('refusing: /repo has uncommitted changes:\n' + st)
-subprocess.run(['git', '-C', '/repo', 'apply', patch], check=True)
+    sys.exit('refusing: %s has uncommitted changes:\n' % src + st)
+subprocess.run(['git', '-C', src, 'apply', patch], check=True)
+evdir = tempfile.mkdtemp(prefix='try_patch_ev_')
 res = {}
 try:
     procs = {}
     for i in ids:
         procs[i] = subprocess.Popen([os.path.join(HERE, 'check'), i, '--tier', 'quick'], cwd=HERE, stdout=subprocess.PIPE,
-                                    stderr=subprocess.STDOUT, text=True, env=dict(os.environ, VERIF_EVIDENCE_DIR='/dev/null'))
+                                    stderr=subprocess.STDOUT, text=True,
+                                    env=dict(os.environ, VERIF_EVIDENCE_DIR=evdir, CHI_SRC=src))
         if len(procs) % 4 == 0:
             for p in procs.values():
                 p.wait()
@@ -24,8 +32,8 @@ try:
         detail = [l for l in out.splitlines() if l.startswith('  clause=')]
         res[i] = (p.returncode, len(viol), detail[:2], [l for l in out.splitlines() if 'MACHINERY' in l][:1])
 finally:
-    subprocess.run(['git', '-C', '/repo', 'checkout', '--', '.'], check=True)
-    subprocess.run(['git', '-C', HERE, 'checkout', '--', 'evidence'], check=False)
+    subprocess.run(['git', '-C', src, 'checkout', '--', '.'], check=True)
+    shutil.rmtree(evdir, ignore_errors=True)
 for i in ids:
     rc, nv, detail, mach = res[i]
     print('%s exit=%d violations=%d %s %s' % (i, rc, nv, ' | '.join(detail)[:300], mach))
